@@ -562,9 +562,12 @@ func rulesAt(b Builder, seq []*Call, i int) (string, bool) {
 				if _, e2, ok2 := lastLive.Step(seq[k]); ok2 && e2.NViol > 1 {
 					multi = true
 				}
+				if e.NViol > 1 {
+					multi = true
+				}
 				return "sticky(" + r + ")", multi
 			default:
-				return "compiled", false
+				return "compiled", e.NViol > 1 // several rejected modification attempts pending: either may be reported
 			}
 		}
 		m = nx
